@@ -1,4 +1,5 @@
 import PqModel.ThriftSkipProofs
+import PqModel.ThriftSkipFuel
 
 /-! C14, truncated and damaged footers: property theorems about the MIRROR of the footer decoder's
     structure walk (`PqModel.ThriftSkip`: `compactBytesReader` + `skipStruct` of encoding/thrift) and
@@ -50,6 +51,40 @@ theorem walk_cut_class (d : Bytes) (f e m : Nat) (h : skipT d f (.fields true) 0
   · exact Or.inl h4
   · exact Or.inr h4
 
+/-- at a fixed fuel the walk is local: bytes after the end of the struct do not matter, a cut at or
+after the end changes nothing -/
+theorem walk_local (d : Bytes) (f e m : Nat) (h : skipT d f (.fields true) 0 = .ok ((), e)) (hm : e ≤ m) :
+    skipT (d.take m) f (.fields true) 0 = .ok ((), e) :=
+  ((walk_rel d f m () e h).2 (Nat.zero_le _)).1 hm
+
+/-- **walk_never_out_of_fuel.** The fuel of the model (`4·|d| + 16`) is never exhausted: the mirror's
+answer is that of the unbounded recursion. -/
+theorem walk_never_out_of_fuel (d : Bytes) : skipStruct d ≠ .error .fuel := skipStruct_nofuel d
+
+theorem skipStruct_take_fuel (d : Bytes) (m : Nat) :
+    skipT (d.take m) (fuelFor d) (.fields true) 0 = skipT (d.take m) (fuelFor (d.take m)) (.fields true) 0 :=
+  skipStruct_eq_of_fuel (d.take m) (fuelFor d) (by unfold fuelFor; rw [List.length_take]; omega)
+
+/-- **walk_cut_eof.** The cut of an accepted struct is rejected with `io.EOF` or
+`io.ErrUnexpectedEOF`, nothing else. -/
+theorem walk_cut_eof (d : Bytes) (e m : Nat) (h : skipStruct d = .ok e) (hm : m < e) :
+    skipStruct (d.take m) = .error .eof ∨ skipStruct (d.take m) = .error .ueof := by
+  rw [skipStruct_ok_iff] at h
+  have hc := walk_cut_class d (fuelFor d) e m h hm
+  rw [skipStruct_take_fuel] at hc
+  unfold skipStruct
+  rcases hc with hc | hc <;> rw [hc]
+  · exact Or.inl rfl
+  · exact Or.inr rfl
+
+/-- **walk_cut_after.** A cut at or after the end of the struct changes nothing: the bytes that
+follow a struct play no part in its acceptance. -/
+theorem walk_cut_after (d : Bytes) (e m : Nat) (h : skipStruct d = .ok e) (hm : e ≤ m) :
+    skipStruct (d.take m) = .ok e := by
+  rw [skipStruct_ok_iff] at h ⊢
+  rw [← skipStruct_take_fuel]
+  exact walk_local d (fuelFor d) e m h hm
+
 /-- an accepted struct is not empty and ends inside the input -/
 theorem walk_end_bounds (d : Bytes) (e : Nat) (h : skipStruct d = .ok e) : 0 < e ∧ e ≤ d.length := by
   rw [skipStruct_ok_iff] at h
@@ -74,20 +109,16 @@ theorem encoding_prefix_rejected (enc : Bytes) (h : skipStruct enc = .ok enc.len
     (hm : m < enc.length) : ∃ err, skipStruct (enc.take m) = .error err :=
   walk_cut_rejected enc enc.length m h hm
 
-/-- at a fixed fuel the walk is local: bytes after the end of the struct do not matter, a cut at or
-after the end changes nothing -/
-theorem walk_local (d : Bytes) (f e m : Nat) (h : skipT d f (.fields true) 0 = .ok ((), e)) (hm : e ≤ m) :
-    skipT (d.take m) f (.fields true) 0 = .ok ((), e) :=
-  ((walk_rel d f m () e h).2 (Nat.zero_le _)).1 hm
-
 /-- the walk never reads the thrift input as complete when it ends inside a value: the errors a cut
 produces are the end-of-input classes or a check that failed on bytes before the cut — never a
 success. Stated for the open path: a footer section that holds a proper prefix of an accepted struct
 makes `footerWalk` fail with a thrift error. -/
 theorem footerWalk_cut (enc : Bool) (ft : Bytes) (e m : Nat) (h : skipStruct ft = .ok e) (hm : m < e) :
-    ∃ err, footerWalk enc (ft.take m) = .error (.thrift err) := by
-  obtain ⟨err, he⟩ := walk_cut_rejected ft e m h hm
-  exact ⟨err, by unfold footerWalk; rw [he]⟩
+    footerWalk enc (ft.take m) = .error (.thrift .eof) ∨ footerWalk enc (ft.take m) = .error (.thrift .ueof) := by
+  unfold footerWalk
+  rcases walk_cut_eof ft e m h hm with he | he <;> rw [he]
+  · exact Or.inl rfl
+  · exact Or.inr rfl
 
 theorem le32_le32Bytes (n : Nat) (h : n < 4294967296) : le32 (le32Bytes n) = n := by
   unfold le32 le32Bytes
@@ -127,14 +158,14 @@ theorem openModel_fileWith (enc : Bool) (pre ft : Bytes) (hpre : 4 ≤ pre.lengt
 /-- **cut_footer_rejected.** Take any file whose footer section holds a struct the walk accepts in
 full (`skipStruct ft = ok |ft|`), cut the footer anywhere (`k < |ft|`) and patch the announced length
 to the cut: the open path reaches the decoder (magic, length and bounds all pass) and the decoder
-rejects. With `prefix_rejected` (C14.lean: a file cut anywhere fails the trailer stage unless its
+rejects with an end-of-input error. With `prefix_rejected` (C14.lean: a file cut anywhere fails the trailer stage unless its
 tail is again `len‖magic`) this covers both ways of truncating a file. -/
 theorem cut_footer_rejected (enc : Bool) (pre ft : Bytes) (hpre : 4 ≤ pre.length)
     (hmag : isMagic (pre.take 4) enc = true) (hlen : ft.length < 4294967296)
     (hft : skipStruct ft = .ok ft.length) (k : Nat) (hk : k < ft.length) :
-    ∃ err, openWalk enc (fileWith pre (ft.take k)) = .error (.thrift err) := by
-  obtain ⟨err, he⟩ := footerWalk_cut enc ft ft.length k hft hk
-  refine ⟨err, ?_⟩
+    openWalk enc (fileWith pre (ft.take k)) = .error (.thrift .eof) ∨
+      openWalk enc (fileWith pre (ft.take k)) = .error (.thrift .ueof) := by
+  have he := footerWalk_cut enc ft ft.length k hft hk
   unfold openWalk
   rw [openModel_fileWith enc pre (ft.take k) hpre hmag (by rw [List.length_take]; omega)]
   exact he
@@ -183,9 +214,10 @@ example : openWalk false (fileWith magicPAR1 (tinyFooter.take 7)) = .error (.thr
 example : openWalk false (fileWith magicPAR1 []) = .error (.thrift .eof) := by decide
 /-- trailing bytes after the struct: rejected unless they are 28 bytes and keys were given -/
 example : openWalk false (fileWith magicPAR1 (tinyFooter ++ [0])) = .error (.trailing 1) := by decide
-/-- a cut is not always an end-of-input class: here the varint length of a binary is cut to a
-smaller, complete varint, and the walk then fails on what follows -/
-example : skipStruct [0x18, 0x81, 0x01] = .error .ueof ∧ skipStruct [0x18, 0x81] = .error .ueof := by decide
+/-- damage other than a cut meets the other classes: an 11-byte varint, an i16 out of range, a type
+code the decoder does not know -/
+example : skipStruct [0x16, 0x80, 0x80, 0x80, 0x80, 0x80, 0x80, 0x80, 0x80, 0x80, 0x02, 0x00] = .error .overflow ∧
+    skipStruct [0x14, 0xFF, 0xFF, 0x0F, 0x00] = .error .range ∧ skipStruct [0x1E, 0x00] = .error .badType := by decide
 /-- a struct can end on a delta header whose type nibble is STOP (compact.go:507-509 then
 decode.go:795): `0x10` closes the struct like `0x00` does — as in the code -/
 example : skipStruct [0x15, 0x02, 0x10] = .ok 3 := by decide
